@@ -76,11 +76,8 @@ class CdsShortTimestamp(CcsdsTimeProvider):
     def _calculate_unix_seconds(self):
         unix_days = convert_ccsds_days_to_unix_days(self._ccsds_days)
         self._unix_seconds = unix_days * SECONDS_PER_DAY
-        seconds_of_day = self._ms_of_day / 1000.0
-        if self._unix_seconds < 0:
-            self._unix_seconds -= seconds_of_day
-        else:
-            self._unix_seconds += seconds_of_day
+        # The time of day always counts forward from the start of the day, also before 1970.
+        self._unix_seconds += self._ms_of_day / 1000.0
 
     def _calculate_date_time(self):
         if self._unix_seconds < 0:
